@@ -3,7 +3,7 @@ from vlib import g1check
 
 PROPERTY = "C08"
 LEVEL = "exploration"
-RULE = ("G1 with-programs with 25 `as`-target forms (none, local / global name, attribute, nested attribute, subscript by "
+RULE = ("(The static leg also compiles a hand-written corpus of targets the standard library lacks: infinite float / complex constants and Ellipsis inside tuple subscripts, attributes / calls / subscripts through super() and super(K, self).) G1 with-programs with 25 `as`-target forms (none, local / global name, attribute, nested attribute, subscript by "
         "constant / by name, chained subscripts, subscript of an attribute, positional calls (with arguments; of a global callable, of a method, of a callable held in a local variable) then subscript, subscript by the constant ..., "
         "tuple, list, tuple of attribute and subscript, starred first / last / middle, nested unpacking; unsupported: walrus "
         "or arithmetic in a subscript, keyword call, slice with both bounds or with an omitted one) x 3 layouts (one line, manager call spread over lines, "
